@@ -435,8 +435,8 @@ func clip400(s string) string {
 
 // stack samples at consecutive ticks: at most hangSamples, stopping once the common prefix has
 // not shrunk for hangStable consecutive ticks
-const hangSamples = 400
-const hangStable = 150
+const hangSamples = 1200
+const hangStable = 400
 
 var hangCache = map[string][2]string{}
 
